@@ -14,8 +14,7 @@ from __future__ import annotations
 import ast
 
 from .cfg import branch_facts
-from .core import (AnalysisError, ancestors, const_str, dotted, is_self_attr,
-                   last_attr, txt, walk)
+from .core import AnalysisError, ancestors, const_str, dotted, txt, walk
 
 PKG = "dclab/"
 CORE = "dclab/rtdc_dataset/core.py"
